@@ -281,6 +281,22 @@ func (p bpProv) Proposal(ctx context.Context, _ *api.ProposalOpts) (*api.Respons
 		ConsensusValue: cons, ExecutionValue: exec}, Metadata: map[string]any{}}, nil
 }
 
+// bpClientProv is a node that can also be asked for its client name (as vouch's HTTP clients can).
+type bpClientProv struct{ bpProv }
+
+func (p bpClientProv) NodeClient(ctx context.Context) (*api.Response[string], error) {
+	if c07Lats[p.e.nodes[p.i].lat] == -1 {
+		// the node answers nothing at all
+		d := ctx.Done()
+		if d == nil {
+			mc.Block(0)
+		}
+		mc.Block(mc.KeyOfRecv(d))
+		return nil, ctx.Err()
+	}
+	return &api.Response[string]{Data: fmt.Sprintf("client%d", p.i), Metadata: map[string]any{}}, nil
+}
+
 func bpLabel(r *api.Response[*api.VersionedProposal], err error) (byte, error) {
 	if err != nil {
 		return 0, err
@@ -464,6 +480,26 @@ func c07Strats() []c07Strat {
 			must(err)
 			return func(ctx context.Context) (byte, error) {
 				r, err := s.Proposal(ctx, &api.ProposalOpts{Slot: c07Slot})
+				e.relabel = func() (byte, error) { return bpLabel(r, err) }
+				return bpLabel(r, err)
+			}
+		}},
+		// the same strategy asked with a graffiti that names the node's client ({{CLIENT}}): the strategy asks each node
+		// for its client name first; a node that never answers does not answer that question either
+		{name: "beaconblockproposal/best+client-graffiti", fam: "best", kinds: "ABE", mk: func(e *c07Env) func(context.Context) (byte, error) {
+			m := map[string]eth2client.ProposalProvider{}
+			for i, n := range names(len(e.nodes)) {
+				m[n] = bpClientProv{bpProv{e, i}}
+			}
+			s, err := bpbest.New(bg, bpbest.WithLogLevel(zerolog.Disabled), bpbest.WithClientMonitor(mon), bpbest.WithProcessConcurrency(1),
+				bpbest.WithTimeout(c07Timeout), bpbest.WithEventsProvider(&eventsProvider{}), bpbest.WithChainTimeService(newChainTime(0, 12*time.Second, 32)),
+				bpbest.WithSpecProvider(&specProvider{m: baseSpec(12*time.Second, 32)}), bpbest.WithProposalProviders(m),
+				bpbest.WithSignedBeaconBlockProvider(c18Blocks{}), bpbest.WithBlockRootToSlotCache(tableCache{}))
+			must(err)
+			return func(ctx context.Context) (byte, error) {
+				var g [32]byte
+				copy(g[:], "vouch {{CLIENT}}")
+				r, err := s.Proposal(ctx, &api.ProposalOpts{Slot: c07Slot, Graffiti: g})
 				e.relabel = func() (byte, error) { return bpLabel(r, err) }
 				return bpLabel(r, err)
 			}
@@ -839,7 +875,7 @@ func c07Check(st *c07Strat, e *c07Env, r *mc.Result) mc.Verdict {
 			t = int64(lat) * int64(time.Second)
 		}
 		if e.arrive[i] >= 0 && e.arrive[i]-e.t0 != t {
-			return fail("harness-arrival-mismatch", "internal: observed arrival differs from the scripted latency")
+			return fail("node-asked-late", fmt.Sprintf("node %d's answer arrived %.1f s after the call although it answers %.1f s after being asked: the strategy did not send its requests to all nodes at once", i, float64(e.arrive[i]-e.t0)/1e9, float64(t)/1e9))
 		}
 		if t > allBy {
 			allBy = t
